@@ -11,6 +11,39 @@ from dliswriter.utils.internal.types import data_form_type, data_source_type, fi
 logger = logging.getLogger(__name__)
 
 
+def check_float_cast(values: np.ndarray, target_dtype: np.dtype, name: str = 'Data') -> None:
+    """Check that floating-point values can be cast to the given integer or (narrower) floating-point type.
+
+    numpy leaves the result of casting NaN, infinities or out-of-range floats to an integer type undefined: what comes out
+    (and whether a floating-point error is flagged) differs with the number of values cast at once and with their layout
+    in memory. Such numbers are not written; neither are finite numbers which would become infinite.
+
+    Raises:
+        ValueError  :   If any of the values cannot be represented in the target type.
+    """
+
+    values = np.asarray(values)
+    if values.dtype.kind != 'f' or not values.size:
+        return
+
+    target_dtype = np.dtype(target_dtype)
+    if target_dtype.kind in 'iu':
+        info = np.iinfo(target_dtype)
+        with np.errstate(invalid='ignore'):
+            truncated = np.trunc(values.astype(np.float64))
+            # (comparisons with NaN are False; for 64-bit types, float(info.max) + 1 is exactly 2**63 or 2**64)
+            ok = (truncated >= float(info.min)) & (truncated < float(info.max) + 1.0)
+    elif target_dtype.kind == 'f' and target_dtype.itemsize < values.dtype.itemsize:
+        with np.errstate(over='ignore', invalid='ignore'):
+            ok = ~(np.isfinite(values) & np.isinf(values.astype(target_dtype)))
+    else:
+        return
+
+    if not ok.all():
+        raise ValueError(f"{name} has values which cannot be cast to {target_dtype} "
+                         f"(not-a-number, infinite, or outside of the range of that type)")
+
+
 class SourceDataWrapper(ABC):
     """Keep reference to source data. Produce chunks of input data as asked, in the form of a structured numpy array."""
 
@@ -177,14 +210,9 @@ class SourceDataWrapper(ABC):
 
         chunk = np.zeros(n_rows, dtype=self._dtype)
         for key, loc in self._mapping.items():
-            try:
-                # numpy leaves the result of casting NaN, infinities or too large floats to an integer type undefined
-                # (it even differs with the number of rows cast at once); do not write such numbers
-                with np.errstate(invalid='raise'):
-                    chunk[key] = self._data_source[loc][idx]
-            except FloatingPointError:
-                raise ValueError(f"Data set '{loc}' has values which cannot be cast to {self._dtype[key].base} "
-                                 f"(not-a-number, infinite, or outside of the range of that type)")
+            values = self._data_source[loc][idx]
+            check_float_cast(values, self._dtype[key].base, name=f"Data set '{loc}'")
+            chunk[key] = values
 
         return chunk
 
